@@ -6,7 +6,7 @@ use tyme4rs::tyme::eightchar::{ChildLimit, DecadeFortune, Fortune, verif_set_chi
 use tyme4rs::tyme::solar::SolarTime;
 use crate::util::*;
 
-const OPS: &[&str] = &["limit", "fortune", "decade", "fnext", "dnext"];
+const OPS: &[&str] = &["limit", "fortune", "decade", "fnext", "dnext", "limit.more"];
 
 pub fn exec(op: &str, a: &[i64]) -> Option<Option<String>> {
   if !OPS.contains(&op) { return None; }
@@ -49,6 +49,26 @@ pub fn go(op: &str, a: &[i64]) -> Option<String> {
       let l = limit(a)?;
       let f = DecadeFortune::from_child_limit(l, a[8] as isize);
       Some(format!("{} {} {} {}", f.get_start_age(), f.get_end_age(), f.get_sixty_cycle().get_index(), f.get_start_sixty_cycle_year().get_year()))
+    }
+    // … k -> the remaining getters of ChildLimit, DecadeFortune(k) and Fortune(k) (see the driver for the line layout)
+    ("limit.more", 9) => {
+      let l = limit(a)?;
+      let k = a[8] as isize;
+      let st = l.get_start_time();
+      let e = l.get_eight_char();
+      let df = DecadeFortune::from_child_limit(l.clone(), k);
+      let f = Fortune::from_child_limit(l.clone(), k);
+      #[allow(deprecated)]
+      let r = format!("{} {} {} {} {} {} {} {} {} {} {} {} {} {} {} {} {} {} {} {} {} {} {} {}",
+        st.get_year(), st.get_month(), st.get_day(), st.get_hour(), st.get_minute(), st.get_second(),
+        match l.get_gender() { Gender::MAN => 1, Gender::WOMAN => 0 },
+        e.get_year().get_index(), e.get_month().get_index(), e.get_day().get_index(), e.get_hour().get_index(),
+        l.get_end_lunar_year().get_year(), l.get_start_sixty_cycle_year().get_year(), l.get_end_sixty_cycle_year().get_year(),
+        l.get_start_decade_fortune().get_index(), l.get_decade_fortune().get_index(), l.get_start_fortune().get_index(),
+        df.get_start_lunar_year().get_year(), df.get_end_lunar_year().get_year(), df.get_end_sixty_cycle_year().get_year(),
+        df.get_start_fortune().get_index(), f.get_lunar_year().get_year(),
+        df.get_child_limit().get_end_time().get_year(), f.get_child_limit().get_end_time().get_year());
+      Some(r)
     }
     // … k n -> Fortune(k).next(n): index, age, pillar
     ("fnext", 10) => {
